@@ -527,6 +527,19 @@ func runC07(r *core.Run) {
 				}
 				break
 			}
+			// ... and the other way round: the largest declared number truncated
+			for _, k := range []uint{8, 16, 24} {
+				if a := lv.Schema.Max & (1<<k - 1); a != lv.Schema.Max && a != 0 && !lv.Schema.Declared[a] {
+					nums = append(nums, a)
+				}
+			}
+			kept := nums[:0]
+			for _, n := range nums {
+				if n >= 1 && n < 1<<29 && !lv.Schema.Declared[n] {
+					kept = append(kept, n)
+				}
+			}
+			nums = kept
 			sort.Slice(nums, func(i, j int) bool { return nums[i] < nums[j] })
 			bstep := 1
 			if len(lv.Recs) > 24 {
